@@ -274,6 +274,53 @@ def rep_chain(exe, root, seed, stats):
         return [('(%s) [rep-chain] d1/F not restored but fix exits 0' % cfg, hist)]
     return None
 
+def zero_chain(exe, root, seed, stats):
+    """a ZERO past hash that outlives the parity it described: a new file V1 is synced into unused parity space by a
+    sync killed before the final content save (content: pending block with the ZERO past hash, parity: V1), rewritten
+    to V2, then a sync during which the file changes skips its stripes but saves the content, then the file is lost.
+    The parity holds V1; fix must give V2 or fail"""
+    rng = e2e.Rng(seed)
+    a = e2e.Arr(root, exe, ndisks=2 + rng.below(2), nparity=2 + rng.below(2), ncontent=1, hashsize=rng.choice([16, 16, 8]))
+    s = sim.Sim(a, rng.fork(), weird_names=False)
+    bs = a.block
+    for d in a.disks:
+        a.write(d, 'A', rng.bytes(bs * (1 + rng.below(2))), s.tick())
+    if s.sync().rc != 0:
+        a.destroy(); return None
+    nb = 1 + rng.below(3)
+    size = nb * bs - rng.below(2) * (1 + rng.below(100))
+    V1, V2 = rng.bytes(size), rng.bytes(size)
+    d = rng.choice(a.disks)
+    a.write(d, 'new', V1, s.tick()); s.log('%s/new created (V1)' % d)
+    s.run('sync', '--test-kill-after-sync')
+    a.write(d, 'new', V2, s.tick()); s.log('%s/new rewritten (V2)' % d)
+    p = a.path(d, 'new')
+    r = s.run('sync', '--test-run', 'touch "%s"' % p)
+    # the touch changed the time-stamp after the scan: put the recorded one back so that the file IS the recorded version
+    if not os.path.exists(a.contents[0]):
+        a.destroy(); return None
+    dec = fx.decode(a)
+    rec = [f for f in dec.files if f['sub'] == b'new' and dec.maps[f['mapping']][0].decode() == d]
+    if not rec or rec[0]['size'] != size:
+        a.destroy(); return None
+    kinds = ''.join(sorted(set(b[1] for b in rec[0]['blocks'])))
+    stats['zero_chain'] = stats.get('zero_chain', 0) + 1
+    stats['zero_chain_kinds'] = stats.get('zero_chain_kinds', {}); stats['zero_chain_kinds'][kinds] = stats['zero_chain_kinds'].get(kinds, 0) + 1
+    cfg = 'zero-chain ndisks=%d nparity=%d hashsize=%d blocks=%d seed=%d' % (a.ndisks, a.nparity, a.hashsize, nb, seed)
+    os.unlink(p); s.log('%s/new lost' % d)
+    r = a.cmd('fix')
+    got = open(p, 'rb').read() if os.path.isfile(p) else None
+    rec_tag = any(t.startswith('status:recovered:%s:new' % d) for t in r.tags)
+    hist = '\n'.join(s.history)
+    a.destroy()
+    if got is not None and got != V2:
+        which = 'V1 (the version the parity holds)' if got == V1 else 'other bytes'
+        return [('(%s) [zero-chain] fix leaves %s/new with %s instead of the recorded version, exit %d, reported recovered=%s (recorded states %s)' % (cfg, d, which, r.rc, rec_tag, kinds),
+                 hist + '\n' + '\n'.join(t for t in r.tags if t.split(':')[0] in ('entry', 'hash_unknown', 'fixed', 'status', 'summary', 'unrecoverable'))[:3000])]
+    if got is None and r.rc == 0:
+        return [('(%s) [zero-chain] %s/new not restored but fix exits 0' % (cfg, d), hist)]
+    return None
+
 def directed_known(exe, root, which):
     """the two hand-derived counter-histories (DESIGN section 7), replayed on the binary.
     Returns (violated: bool, text)"""
@@ -332,7 +379,7 @@ def main(tier, seed):
     def job2(i):
         return rep_chain(exe, os.path.join(vlib.scratch(), 'rc%d' % i), seed * 100000 + 35000 + i, stats)
     with ThreadPoolExecutor(vlib.NCPU) as ex:
-        res = list(ex.map(job, range(n))) + list(ex.map(job2, range(nrc)))
+        res = list(ex.map(job, range(n))) + list(ex.map(job2, range(nrc))) + list(ex.map(lambda i: zero_chain(exe, os.path.join(vlib.scratch(), 'zc%d' % i), seed * 100000 + 36000 + i, stats), range(nrc)))
     k = 0
     for r in res:
         if r:
@@ -344,7 +391,7 @@ def main(tier, seed):
             chk.violation('C05 static obligation failed: ' + o[0], o[0] + '\n' + o[2], False, 'static')
     chk.evaluations = stats['fixes']
     chk.distinct = stats['fixes']
-    chk.rule = ('%d seeded arrays with histories of complete/partial/-S -B/killed/pre-hash syncs, syncs during which a file is moved away or appended (skipped stripes), copy-detected files; then damage on any number of devices (deleted, truncated files, silently changed blocks that carry a recorded hash, lost disks, lost or partly stale parity), an unknown file added; fix with -d / -f dir / -m / no filter; oracle: every selected recorded file has the recorded bytes or is reported unrecoverable with failing exit and summary; nothing reported recovered with other bytes; unselected and unknown files byte- and mtime-identical; plus %d rep-chain histories (a synced file becomes REP by copy detection or pre-hash while a partial sync does not reach it, is rewritten again with another partial sync, then lost: fix must return the recorded version or fail)' % (n, nrc))
+    chk.rule = ('%d seeded arrays with histories of complete/partial/-S -B/killed/pre-hash syncs, syncs during which a file is moved away or appended (skipped stripes), copy-detected files; then damage on any number of devices (deleted, truncated files, silently changed blocks that carry a recorded hash, lost disks, lost or partly stale parity), an unknown file added; fix with -d / -f dir / -m / no filter; oracle: every selected recorded file has the recorded bytes or is reported unrecoverable with failing exit and summary; nothing reported recovered with other bytes; unselected and unknown files byte- and mtime-identical; plus %d rep-chain histories (a synced file becomes REP by copy detection or pre-hash while a partial sync does not reach it, is rewritten again with another partial sync, then lost: fix must return the recorded version or fail) and as many zero-chain histories (a new file synced into unused parity by a sync killed before the content save, rewritten, its stripes skipped by a sync during which it changes, then lost)' % (n, nrc))
     chk.samples = [dict(stats)]
     chk.corr['E2E-FIX'] = dict(stats)
     chk.finish()
